@@ -273,7 +273,7 @@ def run_check(prop, tier, repo, seed, jobs, t0):
     for c in V.all_contracts():
         if c.for_class_obj is not None:
             CLASSMAP[c.ident] = [c.for_class_obj.module.relpath, c.for_class_obj.name]
-    n = cfg.get('native_n', 400) if tier == 'quick' else cfg.get('native_n_thorough', 20000)
+    n = cfg.get('native_n', 400) if tier == 'quick' else cfg.get('native_n_thorough', 4000)
     native = native_crosscheck_parallel(repo, idents_native, n, seed, jobs)
     return report(prop, tier, repo, seed, t0, V, results, native, extra, cfg)
 
@@ -486,7 +486,7 @@ def report(prop, tier, repo, seed, t0, V, results, native, extra, cfg):
             'bounded': [{'what': 'CPython cross-check of the executable contracts against the real functions (generated inputs)',
                          'evaluations': native_evals, 'distinct_inputs': native_distinct,
                          'bound': '%d generated inputs per contract, value pools + random, seed %d' % (
-                             cfg.get('native_n', 400) if tier == 'quick' else cfg.get('native_n_thorough', 20000), seed),
+                             cfg.get('native_n', 400) if tier == 'quick' else cfg.get('native_n_thorough', 4000), seed),
                          'counted_as_proved': False}] + cfg.get('bounded', []),
             'extra_analyses': extra_cov,
             'known_findings_reported': kf_lines,
